@@ -18,6 +18,7 @@ import (
 	"encoding/hex"
 	"fmt"
 	"math/big"
+	"sort"
 	"strings"
 
 	"github.com/piotrnar/gocoin/lib/btc"
@@ -317,6 +318,31 @@ func txid(tag uint32) (h [32]byte) {
 	return
 }
 
+// boundaryCounts lists every out-count c <= max for which one of the values the record
+// formats encode as a CompactSize - last index c-1, c, c+1, 2c, 2c|1 (count with the
+// coinbase flag) - is the last value of one width or the first of the next (252|253,
+// 65535|65536), together with the neighbours c-1 and c+1.
+func boundaryCounts(max int) []int {
+	hit := map[int]bool{}
+	for c := 1; c <= max; c++ {
+		for _, v := range []int{c - 1, c, c + 1, 2 * c, 2*c + 1} {
+			if v == 252 || v == 253 || v == 65535 || v == 65536 {
+				for d := -1; d <= 1; d++ {
+					if c+d >= 1 && c+d <= max {
+						hit[c+d] = true
+					}
+				}
+			}
+		}
+	}
+	var l []int
+	for c := range hit {
+		l = append(l, c)
+	}
+	sort.Ints(l)
+	return l
+}
+
 func survivorSets(n int) (names []string, sets [][]int) {
 	if n <= 3 {
 		for m := 0; m < 1<<uint(n); m++ {
@@ -358,10 +384,11 @@ func recordFamilies(thorough bool) []recSpec {
 	cyc := []string{"p2pkh", "p2sh", "p2pk-compressed-02", "p2pk-uncompressed-valid", "plain-len1-first0", "plain-len0-first0", "plain-len253-first6", "p2pk-compressed-03"}
 	cycAm := []uint64{0, 1, 546, 5000000000, 21e14, 12345678, 100000000, 0xfd}
 	// F1: shapes
-	counts := []int{1, 2, 3, 252, 253, 254, 30000, 30001, 30002}
-	if thorough {
-		counts = append(counts, 65535, 65536, 65537)
-	}
+	// 1..3 (all survivor subsets), the pool-size constant of SerializeC (30001 values =
+	// 15000 outputs with flag), and every count at which a CompactSize the formats derive
+	// from it changes width
+	counts := append([]int{1, 2, 3, 15000, 15001, 30000, 30001, 30002}, boundaryCounts(65537)...)
+	sort.Ints(counts)
 	heights := []uint32{0, 1, 252, 253, 65535, 65536, 0xffffffff}
 	tag := uint32(1)
 	for _, n := range counts {
@@ -369,7 +396,10 @@ func recordFamilies(thorough bool) []recSpec {
 		for si, set := range sets {
 			hs := heights
 			if n > 254 {
-				hs = []uint32{0, 253, 65536}
+				hs = []uint32{0, 65536}
+				if thorough {
+					hs = []uint32{0, 253, 65536}
+				}
 			}
 			for _, h := range hs {
 				for _, cb := range []bool{false, true} {
